@@ -231,7 +231,7 @@ func runGlob(g *fs.Globber, root, include, exclude string, hidden bool) (res []s
 	}()
 	var ex []string
 	if exclude != "" {
-		ex = []string{exclude}
+		ex = strings.Split(exclude, ";") // "e1;e2" = the exclude list [e1, e2] (no pattern of the alphabets contains ';')
 	}
 	return g.Glob(root, []string{include}, ex, hidden, true), ""
 }
@@ -444,6 +444,48 @@ func checkCase(r *lib.Run, t *tree, w witness, glob globFn) bool {
 	return false
 }
 
+// checkList: excludes act independently of each other and of their order, so glob(inc, [e1, e2]) must be exactly the
+// entries that both glob(inc, [e1]) and glob(inc, [e2]) return (computed by the real code itself, so the known
+// single-pattern findings cannot show up here). Each call gets a fresh Globber.
+func checkList(w witness, m fstest.MapFS) bool {
+	es := strings.Split(w.Exclude, ";")
+	one := func(ex string) ([]string, string) {
+		return runGlob(fs.NewGlobber(m, []string{buildFileName}), w.Root, w.Include, ex, w.Hidden)
+	}
+	both, p := one(w.Exclude)
+	g1, p1 := one(es[0])
+	g2, p2 := one(es[1])
+	if p1 != "" || p2 != "" {
+		return true // a single exclude already fails: the single-exclude cases report that
+	}
+	in2 := map[string]bool{}
+	for _, x := range g2 {
+		in2[x] = true
+	}
+	var want []string
+	for _, x := range g1 {
+		if in2[x] {
+			want = append(want, x)
+		}
+	}
+	sort.Strings(want)
+	got := append([]string{}, both...)
+	sort.Strings(got)
+	if p == "" && strings.Join(got, "\x00") == strings.Join(want, "\x00") {
+		return true
+	}
+	kind := "returns-an-entry-one-of-them-excludes"
+	if p != "" {
+		kind = "panic"
+	} else if len(got) < len(want) {
+		kind = "drops-an-entry-neither-excludes"
+	}
+	w.Problem = kind
+	record("glob:exclude-list:"+kind, w, fmt.Sprintf("glob(include=[%q], exclude=%q, hidden=%v) in package %q over files %v returned %v %s; with exclude=[%q] alone it returns %v, with [%q] alone %v",
+		w.Include, es, w.Hidden, w.Root, w.Files, both, p, es[0], g1, es[1], g2))
+	return false
+}
+
 // ---------------------------------------------------------------------------------------------------------------
 // Enumeration.
 
@@ -616,7 +658,11 @@ func main() {
 			}
 		}
 		w.Entry, w.Problem = "", ""
-		checkCase(r, t, w, glob)
+		if strings.Contains(w.Exclude, ";") {
+			checkList(w, mapFS(w.Root, w.Files))
+		} else {
+			checkCase(r, t, w, glob)
+		}
 		if env != nil {
 			os.Chdir(lib.VerifRoot)
 			env.close()
@@ -711,6 +757,22 @@ func main() {
 									samples.Add(func() any { return w })
 								}
 								checkCase(r, t, w, glob)
+							}
+						}
+					}
+					// Exclude lists of two patterns, in both orders (the full universe and the small trees only).
+					if len(jb.files) == len(universe) || len(jb.files) <= 1 {
+						for _, e1 := range excludes {
+							for _, e2 := range excludes {
+								if e1 == e2 {
+									continue
+								}
+								for _, hidden := range []bool{false, true} {
+									for _, p := range jb.pats {
+										atomic.AddInt64(&evals, 1)
+										checkList(witness{Root: root, Files: jb.files, Include: p, Exclude: e1 + ";" + e2, Hidden: hidden, Via: "mapfs"}, m)
+									}
+								}
 							}
 						}
 					}
